@@ -246,12 +246,29 @@ func includeHeader(hdr string, signedHdrs []string) bool {
 }
 
 func IsBigDataAction(ctx *fiber.Ctx) bool {
-	if ctx.Method() == http.MethodPut && len(strings.Split(ctx.Path(), "/")) >= 3 {
-		if !ctx.Request().URI().QueryArgs().Has("tagging") && ctx.Get("X-Amz-Copy-Source") == "" && !ctx.Request().URI().QueryArgs().Has("acl") {
-			return true
-		}
+	if ctx.Method() != http.MethodPut {
+		return false
 	}
-	return false
+	// only object level requests stream their body: "/bucket" and
+	// "/bucket/" are bucket level requests whose handlers read the body
+	// as a whole, so its hash has to be verified before they run
+	parts := strings.SplitN(ctx.Path(), "/", 3)
+	if len(parts) < 3 || parts[2] == "" {
+		return false
+	}
+	args := ctx.Request().URI().QueryArgs()
+	if args.Has("tagging") || args.Has("acl") || args.Has("retention") || args.Has("legal-hold") {
+		return false
+	}
+	if ctx.Get("X-Amz-Copy-Source") != "" {
+		return false
+	}
+	// without a body there is nothing to stream: verify the (empty)
+	// payload's hash right away instead of never
+	if ctx.Request().Header.ContentLength() == 0 {
+		return false
+	}
+	return true
 }
 
 // expiration time window
